@@ -65,10 +65,18 @@ CHECKS = {
          "(a) the C01 exploration over a universe with named, tuple-like, nested, recursive #[compound] structs, Rust tuples and Option, run on the compound terms and on the isomorphic tagged-list encoding, each transition against the reference unifier; (b) the C03 programs and the FD labeling programs with compound-shaped answers executed as written and with every constructor encoded as a tagged list: decoded answers (terms and reported constraints) coincide.",
          "Option is read as the library converts it (None = [], Some(x) = x); compound values are built through the generated Rust types.",
          "4/C20"),
+ "C21": ("bounded-exhaustive term pairs and element sequences vs structural equality and a Vec model (E3)",
+         "Every ordered pair of a ~270-term universe (all literal kinds, variables and second constructions, [], proper/improper/nested lists, compounds): == equals structural equality with variable identity, symmetric, equal => equal hash under SipHash and a boundary-recording hasher; every element sequence of length 0..3 over 11 element values with and without 4 improper tails: constructors, iter / IntoIterator, Index, IndexMut, iter_mut, head/tail, predicates, contains, extend, Display against the Vec model.",
+         "Hash under two hashers; extend on proper lists only.",
+         "4/C21"),
  "C22": ("bounded-exhaustive statement sequences with an instrumented User type and per-statement probes x schedules (E3 x E2)",
          "All ordered sequences of 2-3 == / != statements (incl. subsuming and multi-binding disequalities), sequences with a two-arm conde, and FD programs run with a User type counting with_constraint/take_constraint and logging process_extension; probes before/after every statement and every answer state: with - take == stored constraints; each successful == triggers process_extension once with exactly unify_rec's new bindings; the statements seen by an answer's user state form one program path (per-branch cloning).",
          "Statement alphabet of 10 tree + 7 FD statements; d=1 quick / 2 thorough on the store iteration sites.",
          "4/C22"),
+ "C24": ("bounded-exhaustive argument modes of every list relation vs Vec definitions on ground instances (E3)",
+         "member, member1, append, rember, permute, distinct, cons, first, rest, empty in every combination of ground / partially ground / fresh arguments over short lists on {1,2,3} (plus aliased arguments): every instance of every answer satisfies the Vec definition; every satisfying ground tuple of a small universe is covered by an answer; member one answer per position, member1 one per distinct value.",
+         "Non-terminating modes judged on 120 answers / 400000 steps; instances that put a non-list where a list is expected are not judged. One known finding (permute).",
+         "4/C24"),
 }
 NOT_APPLICABLE = {}
 
